@@ -353,6 +353,33 @@ func (e *sysfsmEngine) Exec(line string) (obs string, viol string) {
 			}
 		}
 		return "-", viol
+	case "zerostop":
+		// "returns within its timeout" for the smallest timeouts: Stop(0) and Stop(negative) give up at once
+		// (documented: a non-positive timeout expires immediately) while an actor is still busy stopping
+		for _, to := range []time.Duration{0, -time.Second, time.Millisecond} {
+			sys := actor.NewSystem(vivid.WithActorSystemLogger(log.NewSilentLogger()))
+			if err := sys.Start(); err != nil {
+				return "-", ""
+			}
+			release := make(chan struct{})
+			sys.ActorOf(vivid.ActorFN(func(c vivid.ActorContext) {
+				if _, ok := c.Message().(*vivid.OnKill); ok {
+					<-release
+				}
+			}), vivid.WithActorName("busy"))
+			time.Sleep(20 * time.Millisecond)
+			t0 := time.Now()
+			r, done := bounded(func() error { return sys.Stop(to) })
+			d := time.Since(t0)
+			close(release)
+			if viol == "" && (!done || d > 500*time.Millisecond) {
+				viol = fmt.Sprintf("STOP-TIMEOUT: Stop(%v) with an actor busy in OnKill returned %q after %v: Stop returns within its timeout", to, r, d.Round(10*time.Millisecond))
+			} else if viol == "" && r == "ok" {
+				viol = fmt.Sprintf("SLOW-STOP: Stop(%v) returned nil although an actor was still running when its timeout expired", to)
+			}
+			time.Sleep(50 * time.Millisecond)
+		}
+		return "-", viol
 	case "selfstop":
 		// an actor that reacts to its own termination by stopping the system (a common shutdown idiom): the Stop
 		// that is already in progress must still succeed within its timeout, and the inner call returns its error
@@ -480,6 +507,9 @@ func (e *sysfsmEngine) Generate(c *Ctx) {
 		c.R.Nontrivial()
 		c.Case("selfstop")
 		c.R.Hit("selfstop")
+		c.R.Nontrivial()
+		c.Case("zerostop")
+		c.R.Hit("zerostop")
 		c.R.Nontrivial()
 	}
 	// (3) goroutine census after a full Start/Stop cycle
